@@ -167,3 +167,27 @@ def table_entry(rewriter, resource):
     except celpy.CELParseError as ex:
         return False, f"{rewriter}({resource!r}) emits `{text}`, which is not valid CEL (line {ex.line}, column {ex.column})"
     return True, text
+
+
+def duration_literal(kind, n):
+    """the duration literal emitted for a count of seconds / days / quarter days, evaluated as CEL, is that length of time"""
+    import celpy
+    from fractions import Fraction
+    from xlate.c7n_to_cel import C7N_Rewriter
+    if kind == "seconds":
+        lit, want = C7N_Rewriter.seconds_to_duration(n), n
+    elif kind == "age-days":
+        lit, want = C7N_Rewriter.age_to_duration(n), n * 86400
+    else:
+        lit, want = C7N_Rewriter.age_to_duration(n / 4), n * 21600
+    celpy.CELParser.CEL_PARSER = None
+    env = celpy.Environment()
+    try:
+        prog = env.program(env.compile(f"duration({lit})"))
+    except Exception as ex:  # noqa: BLE001
+        return False, f"{kind} {n}: emitted {lit!r}, `duration({lit})` does not parse: {type(ex).__name__}"
+    kd, r = evaluate_outcome(lambda: prog.evaluate({}))
+    if kd != "value":
+        return False, f"{kind} {n}: duration({lit}) is {kd} {r!r:.80}"
+    got = (r.days * 86400 + r.seconds) * 10**6 + r.microseconds
+    return got == want * 10**6, f"{kind} count {n if kind != 'age-quarter-days' else Fraction(n, 4)}: emitted duration({lit}) is {got / 10**6} s, expected {want} s"
